@@ -31,6 +31,37 @@ def decorate(ctx, inst, n):
     return [x.upper() if (r.random() < 0.3 and x not in "bnw") else x for x in inst]
 
 
+DEEP = [("(", "a", ")"), ("[", "a", "]"), ("f(", "a", ")")]
+
+
+def deep_transparency(ctx):
+    """Expressions nested 12 000 levels (beyond limits of about ten thousand): the instance is too big for
+    the trace validator, so only the clause 'transparent' is judged, real against real: the parse with a
+    re-entrant expression interceptor (alone, and behind a pass-through one) reports the same number of
+    errors and the same compact output as the parse without interceptors."""
+    n = 12000
+    cases = []
+    for k, (o, m, c) in enumerate(DEEP):
+        src = list(("let x = " + o * n + m + c * n).encode())
+        for name, inst in (("base", []), ("r", ["r"]), ("er", ["e", "r"])):
+            cases.append(dict(id="deep%d|%s" % (k, name), src=src, cfg=dict(tolerant=False, smart=False, inst=inst), compile=False, out=True, notree=True))
+    res = ctx.run_harness("parse", cases, timeout=600, case_timeout_ms=60000)
+    fails = []
+    for k, shape in enumerate(DEEP):
+        b = res["deep%d|base" % k]
+        for name in ("r", "er"):
+            w = res["deep%d|%s" % (k, name)]
+            ctx.cov["evaluations"] += 1
+            if any(x.get("panic") or x.get("hang") or x.get("crash") or "obs" not in x for x in (b, w)):
+                continue      # totality at this depth is C11's subject (and its known findings), not C04's
+            fb = (len(b["obs"]["errors"]), b["obs"].get("out", ""))
+            fw = (len(w["obs"]["errors"]), w["obs"].get("out", ""))
+            if fb != fw:
+                fails.append((dict(id="deep%d" % k, gen=dict(open=shape[0], mid=shape[1], close=shape[2], n=n), inst=[x for x in name]),
+                              "not_transparent", dict(errors_without=fb[0], errors_with=fw[0], same_output=fb[1] == fw[1])))
+    return fails
+
+
 def validate(ctx, items, which=None):
     which = which or WHICH
     cases = []
@@ -166,6 +197,12 @@ def run(ctx, which=None):
         else:
             ctx.notes.append("unreproduced failure on %r" % it["text"])
     if which == "C04":
+        d1 = deep_transparency(ctx)
+        if d1:
+            d2 = {f[0]["id"] + "".join(f[0]["inst"]) for f in deep_transparency(ctx)}      # reproduced in fresh processes
+            for it, clause, detail in d1:
+                if it["id"] + "".join(it["inst"]) in d2:
+                    ctx.violation(dict(gen=it["gen"], inst=it["inst"]), clause, detail)
         ctx.assumptions += ["'parse step' = one invocation of the statement / expression parse function; the steps of an error-free parse are read off the real tree (Requests in XjsGrammar)",
                             "with a re-entrant expression interceptor in the chain, the interceptors installed after it are not reached (it does not call next); order and once-per-step are judged for the interceptors up to and including it",
                             "token interceptors: order is not claimed by the statement; once per token and the lexer position are judged for each of them"]
@@ -180,6 +217,12 @@ def run(ctx, which=None):
 def replay(ctx, v, which=None):
     which = which or WHICH
     c = v["case"]
+    if c.get("gen"):
+        f = [x for x in deep_transparency(ctx) if x[0]["gen"] == c["gen"] and x[0]["inst"] == c["inst"]]
+        print("replay %s:" % which, [x[1] for x in f])
+        if f:
+            print("VIOLATION property=%s replay=(same input)" % which)
+        os._exit(1 if f else 0)
     f = validate(ctx, [dict(id="replay", text=c["text"], inst=c["inst"], builds=c.get("builds", 1), tolerant=c.get("tolerant", False), smart=c.get("smart", False))], which)
     print("replay %s:" % which, [x[1] for x in f])
     if f:
